@@ -76,3 +76,22 @@ Example C13_from_text_example :
   map step_loc steps = [PKey "a"; PIdx 1%Z; PKey "b c"]%string /\
   chain_path (map RPlain steps) = [36; 46; 97; 91; 49; 93; 91; 39; 98; 32; 99; 39; 93]%N.
 Proof. cbv zeta. repeat split; vm_compute; reflexivity. Qed.
+
+(* From the path text (AccFilt.v), for every path of steps and filters (KeyDefs.fchain_path: names, indexes, wildcards, slices,
+   unions, `..`, existence / comparison / query filters, spaced or not): in accessor mode every result is a settable accessor
+   whose location — the one the step-by-step walk of the document (nav_allf) reaches — holds exactly the returned value, and
+   the lens laws hold there. *)
+From JP Require Import FiltChain FiltChainAddr AccFilt.
+Theorem C13_all_results_are_locations_from_text : forall cfg parse_float regex_ok ffun afun regex_match,
+  (forall f v w, small v -> ffun f v = Some w -> small w) ->
+  (forall f l w, Forall small l -> afun f l = Some w -> small w) ->
+  cfg_accessor cfg = true ->
+  forall x r doc st, forallb fstep_ok (x :: r) = true -> forallb (fstep_okp parse_float regex_ok) (x :: r) = true -> small doc -> ok st ->
+  exists t, parse_with cfg parse_float regex_ok jsonpath_grammar (fchain_path (x :: r)) = ParseOk t /\
+            match nav_allf parse_float regex_match doc (x :: r) ([], doc) with
+            | [] => exists e, fst (eval_run ffun afun regex_match t doc st) = OErr e
+            | l => fst (eval_run ffun afun regex_match t doc st) = OOk (map (fun lv => RAcc true (Some (fst lv)) (snd lv)) l) /\
+                   Forall (location_of doc) l
+            end.
+Proof. exact filter_path_accessors. Qed.
+Print Assumptions C13_all_results_are_locations_from_text.
